@@ -395,6 +395,102 @@ def run(tier="quick", replay=None):
                 "auto: every Ok return of gather_dependencies is preceded by the frontend call on all paths (%d Ok site(s))" % len(oks),
                 "gather_dependencies has a success return that does not pass through frontend(..): the listing for such inputs "
                 "is not what the compiler reads", fn=gd.path)
+    # ---------------- R18.e no throw-away include vector ---------------------------------------------
+    # R18.b pairs every read with a push onto "the" includes vector and R18.c.plumbing shows that the vector of the listing
+    # CAN reach a recorder.  Both are void if some function on the way hands the recorder a vector of its own: what is
+    # recorded there is dropped with it.  Every locally created Vec<IncludeDesc> that is lent (&mut) to a crate-local
+    # function must therefore end up in the caller's result, in one of its parameters (e.g. appended to the caller's own
+    # includes vector) or in a field - followed through values that hold IncludeDesc, not through unrelated call results.
+    VEC_DESC = "std::vec::Vec<%s>" % DESC
+    nlocal = 0
+    for f in sorted(prog.fns.values(), key=lambda f: f.path):
+        cands = [l for l in range(f.argc + 1, len(f.locals)) if f.local_ty(l) == VEC_DESC]
+        if not cands:
+            continue
+        fl = Flow(f)
+        for l in cands:
+            if not fl.call_defs.get(l) and not fl.agg_defs.get(l):
+                continue      # a moved copy / pattern binding of a vector created elsewhere
+            # is it lent to a crate-local callee as a recorder sink?
+            carriers = {l}
+            work = [l]
+            while work:
+                x = work.pop()
+                for y in fl.fwd.get(x, ()):
+                    if y not in carriers and "IncludeDesc" in fl.ty(y):
+                        carriers.add(y)
+                        work.append(y)
+            lent = []
+            for bb, t in f.calls():
+                if not (t.get("callee_local") or t.get("target_local")):
+                    continue
+                tys = t.get("arg_tys", [])
+                for ai, a in enumerate(t["args"]):
+                    al = op_local(a)
+                    if al is not None and al in carriers and ai < len(tys) and tys[ai].startswith("&mut ") and "IncludeDesc" in tys[ai]:
+                        lent.append((bb, callee_of(t) or t.get("callee")))
+            if not lent:
+                continue
+            nlocal += 1
+            escapes = 0 in carriers or any((1 <= x <= f.argc) or x < 0 for x in carriers)
+            if not escapes:
+                for _, _, st in f.stmts():
+                    ops = [op_local(o) for o in rv_operands(st["rv"])]
+                    if any(o in carriers for o in ops if o is not None):
+                        dn = fl.node(st["pl"])
+                        if st["rv"]["k"] == "agg" or st["pl"]["p"]:
+                            fw = fl.forward([dn])
+                            if 0 in fw or any((1 <= x <= f.argc) or x < 0 for x in fw):
+                                escapes = True
+            R.check(escapes, "R18.e", "R18.e|%s|scratch-include-vector" % f.path, f.loc(lent[0][0]),
+                    "auto: the locally created include vector lent to %s ends up in the function's result / parameters" % lent[0][1],
+                    "%s lends a locally created Vec<IncludeDesc> to %s and then drops it: every file recorded through that call is "
+                    "missing from the dependency listing although it is read" % (f.path, lent[0][1]), fn=f.path)
+    R.floor("R18.e", "locally created include vectors lent to recorders", nlocal, 1)
+
+    # ---------------- R18.a.store the resolver searches the path it was given -------------------------
+    # `set_search_paths` is the single place where the -i list becomes the resolver's include_dirs (R18.a.first shows that
+    # the resolver walks include_dirs front to back and R11.f that every entry point hands the list over untouched).  It
+    # must store the list as given: a filter / dedup / sort / reverse in between makes the modern resolver (and the
+    # listing) search in another order than the classic reader, which receives the raw list.  A transformation that
+    # happens to preserve first-match resolution (dropping LATER duplicates) would be reported too - said in DESIGN.
+    ssp = [g for g in prog.fns.values() if g.path.endswith("::set_search_paths") and "DefaultCompilerOpts" in g.path and g.kind != "Closure"]
+    if not ssp:
+        R.viol("R18.a.store", "R18.a.store|anchor-lost", "compiler::compiler", "anchor lost: DefaultCompilerOpts::set_search_paths")
+    for g in ssp:
+        REORDER = ("sort", "sort_by", "sort_by_key", "sort_unstable", "sort_unstable_by", "sort_unstable_by_key", "dedup", "dedup_by",
+                   "dedup_by_key", "reverse", "retain", "retain_mut", "swap", "rotate_left", "rotate_right", "truncate", "swap_remove",
+                   "rev", "filter", "filter_map", "skip", "take", "skip_while", "take_while", "step_by", "remove", "insert", "drain",
+                   "chain", "pop", "split_off", "flat_map")
+        bad = []
+        for h in prog.family(g.path):
+            if h.kind == "Closure" and h is not g:
+                continue
+            for bb, t in h.calls():
+                nm = (callee_of(t) or "").rsplit("::", 1)[-1]
+                dn = (t.get("callee") or "").rsplit("::", 1)[-1]
+                g0 = " ".join(t.get("gargs") or []) + " " + " ".join(t.get("arg_tys") or [])
+                if (nm in REORDER or dn in REORDER) and "String" in g0:
+                    bad.append("%s at %s" % (callee_of(t) or t.get("callee"), h.loc(bb)))
+        gfl = Flow(g)
+        stored = False
+        for _, _, st in g.stmts():
+            if any(isinstance(e, dict) and e.get("f") == "include_dirs" for e in st["pl"]["p"]):
+                stored = True
+        for bb, t in g.calls():
+            for a in t["args"]:
+                pl = op_place(a)
+                if pl and any(isinstance(e, dict) and e.get("f") == "include_dirs" for e in pl["p"]):
+                    stored = True
+            for _, _, st in g.stmts():
+                if st["rv"]["k"] == "ref" and any(isinstance(e, dict) and e.get("f") == "include_dirs" for e in st["rv"]["pl"]["p"]):
+                    stored = True
+        R.check(stored and not bad, "R18.a.store", "R18.a.store|search-path-stored-as-given", "%s:%s" % (g.file, g.line),
+                "auto: set_search_paths copies the given list into include_dirs without filtering or reordering",
+                "%s %s: the resolver and the listing then search another list than the one the caller (and the classic reader) "
+                "uses" % (g.path, "transforms the search path before storing it (%s)" % "; ".join(bad) if bad else "does not store into include_dirs"),
+                fn=g.path)
+
     # ---------------- R18.d classic reader sees the search path in the same order ------------------
     # The classic compiler (embed-file in programs without a dialect sigil) reads files through stage_2's reader, which
     # walks the CLVM list produced by get_include_paths.  That list is built by consing onto an accumulator, so the
